@@ -367,6 +367,58 @@ func runCapUDP(k, nerr int) string {
 	return fmt.Sprintf("max=%d replied=%d/%d returned=%d", max, replied, k, returned)
 }
 
+// runCapListen: the real ListenAndServe on a addresses with capacity k (a <= k: every reader can hold its slot), k+a slow
+// UDP queries spread over the addresses: how many does the proxy process at once?
+func runCapListen(k, a int) string {
+	g := &gateUpstream{gate: make(chan struct{})}
+	var addrs []string
+	for i := 0; i < a; i++ {
+		addrs = append(addrs, "127.0.0.1:"+strconv.Itoa(freePort()))
+	}
+	ctx, cancel := context.WithCancel(context.Background())
+	defer cancel()
+	p := proxy.Proxy{Addrs: addrs, Upstream: g, Timeout: 3 * time.Second, MaxInflightRequests: uint(k)}
+	done := make(chan error, 1)
+	go func() { done <- p.ListenAndServe(ctx) }()
+	for _, ad := range addrs {
+		up := false
+		for i := 0; i < 25 && !up; i++ {
+			if r, err := udpExchange(ad, kindQuery(10+i, "ok"), 200*time.Millisecond); err == nil && len(r) >= 12 {
+				up = true
+			}
+		}
+		if !up {
+			return "ERR listener " + ad + " did not come up"
+		}
+	}
+	atomic.StoreInt32(&g.maxActive, 0)
+	n := k + a
+	var wg sync.WaitGroup
+	var replied int32
+	for j := 0; j < n; j++ {
+		wg.Add(1)
+		go func(j int) {
+			defer wg.Done()
+			if r, err := udpExchange(addrs[j%a], kindQuery(1000+j, "slow"), 4*time.Second); err == nil && len(r) >= 12 {
+				atomic.AddInt32(&replied, 1)
+			}
+		}(j)
+		time.Sleep(5 * time.Millisecond)
+	}
+	// settle: k handlers in the resolver, and long enough for one more to show up if the proxy lets it in
+	dl := time.Now().Add(1500 * time.Millisecond)
+	for time.Now().Before(dl) && int(atomic.LoadInt32(&g.active)) < k {
+		time.Sleep(10 * time.Millisecond)
+	}
+	time.Sleep(150 * time.Millisecond)
+	max := atomic.LoadInt32(&g.maxActive)
+	g.mu.Lock()
+	close(g.gate)
+	g.mu.Unlock()
+	wg.Wait()
+	return fmt.Sprintf("max=%d replied=%d/%d", max, replied, n)
+}
+
 func init() {
 	areas["cap"] = func(c *Ctx) error {
 		r := NewRng(c.seed)
@@ -409,6 +461,12 @@ func init() {
 					c.Emit(l, runCapUDP(k, n))
 					continue
 				}
+				if len(f) == 3 && f[0] == "caplisten" {
+					k, _ := strconv.Atoi(f[1])
+					a, _ := strconv.Atoi(f[2])
+					c.Emit(l, runCapListen(k, a))
+					continue
+				}
 				if len(f) == 3 && f[0] == "cap" {
 					k, _ := strconv.Atoi(f[1])
 					if err := one(k, strings.Split(f[2], ",")); err != nil {
@@ -423,6 +481,14 @@ func init() {
 				k, n := 2+r.Intn(3), 1+r.Intn(8)
 				c.Stat("op:capudp")
 				c.Emit(fmt.Sprintf("capudp %d %d", k, n), runCapUDP(k, n))
+			}
+			if i%3 == 1 {
+				// the smallest capacities a configuration can have: as many units as listen addresses, and a few more
+				a := 1 + r.Intn(3)
+				k := a + []int{0, 0, 1, 2}[r.Intn(4)]
+				c.Stat("op:caplisten")
+				c.Stat(fmt.Sprintf("caplisten:K-A=%d", k-a))
+				c.Emit(fmt.Sprintf("caplisten %d %d", k, a), runCapListen(k, a))
 			}
 			k := 2 + r.Intn(3)
 			ne := 6 + r.Intn(14)
